@@ -16,7 +16,7 @@ that MIR.  Two comparisons per emitted item:
 ONE flag selects the model function: D6 `open` (or not listed) -> c18_both_code (pop once), D6 `fixed` ->
 c18_both_fixed (the corrected walk) and (ii) tolerates nothing.
 """
-import collections, copy, json, os, random, re
+import collections, copy, json, os, random, re, time
 import vlib, adef, rustdebug
 from checks import gen_common
 
@@ -521,9 +521,13 @@ def failure_kind(rec, status):
     return None
 
 
-def shrink(ctx, status, d, syntax, kind, budget_rounds=25):
+def shrink(ctx, status, d, syntax, kind, budget_rounds=40):
+    """greedy: evaluate every one-step reduction in ONE batch, keep the smallest that still fails the same way"""
     cur = d
+    deadline = time.time() + (40 if ctx.tier == "quick" else 240)
     for rnd in range(budget_rounds):
+        if time.time() > deadline:
+            break
         cands = candidates(cur)[:400]
         if not cands:
             break
@@ -531,14 +535,10 @@ def shrink(ctx, status, d, syntax, kind, budget_rounds=25):
         recs, err = evaluate(ctx, status, texts, "shrink")
         if err:
             break
-        nxt = None
-        for i, c in enumerate(cands):
-            if failure_kind(recs["s%d" % i], status) == kind:
-                nxt = c
-                break
-        if nxt is None:
+        failing = [(len(texts[i][2]), i) for i in range(len(cands)) if failure_kind(recs["s%d" % i], status) == kind]
+        if not failing:
             break
-        cur = nxt
+        cur = cands[min(failing)[1]]
     return cur
 
 
@@ -570,6 +570,8 @@ def run(ctx):
     ctx.log(f"D6 status: {status} -> model function {'c18_both_fixed (corrected walk)' if status == 'fixed' else 'c18_both_code (pass as written, pops once)'}")
     rng = random.Random(ctx.seed)
     n = 700 if ctx.tier == "quick" else 6000
+    if os.environ.get("VERIF_C18_N", "").isdigit():      # diagnostics only (short mutation-test windows)
+        n = max(10, int(os.environ["VERIF_C18_N"]))
     defs, texts = {}, []
     # fixed witnesses first: D6 of DESIGN.md, its empty-block variant, a 3-level exit
     w = lambda objs: {"config": adef.mk_config(register_address_type="u16", command_address_type="u16", buffer_address_type="u16"),
